@@ -8,3 +8,5 @@ def plan(ctx, base):
     """(family, count) list scaled by tier"""
     mul = 1 if ctx.quick else 12
     return [(f, n * mul) for f, n in base]
+RECOVERY_KINDS = ["reset", "txp", "txf", "packet_sent", "ack_range", "packet_lost", "metrics", "space_discarded", "active_path", "panic", "stall"]
+RECOVERY_ONLY = {"txf": '"ty":"conn_close"'}
